@@ -384,3 +384,33 @@ func VerifC01_BoltSlow() {
 	verif.Assert(len(wire) == meta+len(class)+hl+len(body), "wire length is not the sum of its parts")
 	verif.Cover("end")
 }
+
+// VerifC02_BoltIDWidth: the id handed to the stream table by
+// GenerateRequestID is exactly the id read back from the wire after
+// SetRequestId/Encode/Decode, and counters less than 2^32 apart give distinct ids.
+func VerifC02_BoltIDWidth() {
+	c := verif.U64("c")
+	c0 := c
+	id := boltProtocol{}.GenerateRequestID(&c)
+	verif.Assert(c == c0+1, "counter must advance by one")
+	f := zzFrame("f", false)
+	ctx := zzCtx()
+	frame, err := boltProtocol{}.Decode(ctx, buffer.NewIoBufferBytes(verif.WithStaleCap(f, 64)))
+	verif.Assume(frame != nil && err == nil)
+	xf := frame.(api.XFrame)
+	xf.SetRequestId(id)
+	out, err := boltProtocol{}.Encode(ctx, frame)
+	verif.Assume(err == nil && out != nil)
+	frame2, err := boltProtocol{}.Decode(zzCtx(), buffer.NewIoBufferBytes(verif.WithStaleCap(append([]byte{}, out.Bytes()...), 64)))
+	verif.Assert(frame2 != nil && err == nil, "frame with the generated id must decode")
+	if frame2 == nil {
+		return
+	}
+	verif.Assert(frame2.(api.XFrame).GetRequestId() == id, "id read from the wire differs from the id the stream table was given")
+	d := verif.U64("d")
+	verif.Assume(d != 0 && d>>32 == 0)
+	c2 := c0 + d
+	id2 := boltProtocol{}.GenerateRequestID(&c2)
+	verif.Assert(id2 != id, "two live counters map to the same wire id")
+	verif.Cover("end")
+}
